@@ -15,7 +15,7 @@ def wrap(fmt, v):
 class C06(Check):
     pid = "C06"
     props_file = "Props/C06.v"
-    corr_imports = ["Ebpf.Isa", "Corr.Exec", "Gen.Xadd", "Corr.C06"]
+    corr_imports = ["Ebpf.Isa", "Corr.Exec", "Gen.Xadd", "Corr.C06", "Corr.C09", "Corr.C06h"]
     shard = 100
     technique = ("Coq theorem over ALL interleavings of any number of instances (induction over the interleaving relation) + the ISA step of XADD is one atomic "
                  "add + execution of 2-3 instances of the REAL generated statement on a shared map under round-robin, sequential, adversarial and random schedules")
@@ -27,6 +27,7 @@ class C06(Check):
     def make_case(self, rng):
         fmt = rng.choice(FMTS)
         shared = rng.random() < 0.8
+        kind_mem = "hash" if (shared and rng.random() < 0.3) else "array"
         k = rng.choice([2, 2, 3]) if shared else 1
         kind = rng.choice(["const", "reg", "expr", "expr"])
         ofmt = rng.choice(exprs.FMTS)
@@ -45,7 +46,7 @@ class C06(Check):
                 ["v", "o"],
             ])
         regvals = [rng.choice(exprs.BOUNDARY64 + [rng.randint(-1000, 1000)] * 6) for _ in range(k)]
-        return {"fmt": fmt, "shared": shared, "k": k, "op": rng.choice(["iadd", "isub"]), "amount": amount,
+        return {"fmt": fmt, "shared": shared, "mem": kind_mem, "k": k, "op": rng.choice(["iadd", "isub"]), "amount": amount,
                 "ofmt": ofmt, "oval": oval, "regvals": regvals, "init": exprs.rand_value(rng, fmt),
                 "neighbours": [rng.randrange(2 ** 32), rng.randrange(2 ** 32)], "schedseed": rng.randrange(2 ** 30)}
 
@@ -53,6 +54,8 @@ class C06(Check):
         return [self.make_case(self.rng) for _ in range(150 if self.tier == "quick" else 1500)]
 
     def decls(self, case):
+        if case.get("mem") == "hash":
+            return [("v", "hash", case["fmt"]), ("o", "local", case["ofmt"])]
         st = "array" if case["shared"] else "local"
         return [("n0", st, "I"), ("v", st, case["fmt"]), ("n1", st, "I"), ("o", "local", case["ofmt"])]
 
@@ -63,6 +66,8 @@ class C06(Check):
             c["_progs"], c["_err"], c["_run"] = [], None, None
             decls = self.decls(c)
             values = {"n0": c["neighbours"][0], "v": c["init"], "n1": c["neighbours"][1], "o": c["oval"]}
+            if c.get("mem") == "hash":
+                values = {"o": c["oval"]}
             c["values"] = values
             c["decls"] = decls
             for rv in c["regvals"]:
@@ -93,7 +98,14 @@ class C06(Check):
             progs = clist([ebpf_exec.cprog(p.instrs) for p in c["_progs"]])
             ms = "[" + ebpf_exec.cbytes(amap) + "]" if b.map_size else "[]"
             sch = clist([clist([cnat(j) for j in s]) for s in scheds])
-            terms.append(f"(multis {progs} {ms} {ebpf_exec.cbytes(stack)} {sch})")
+            if c.get("mem") == "hash":
+                # the variable is the 8-byte cell of the hash map under its key byte; the cell lives in memory region 0
+                cell = dsl.to_bytes("q" if c["fmt"].islower() else "Q", c["init"])
+                tab = (f"{{| h_id := 100; h_key := 1%nat; h_value := 8%nat; h_max := 8; "
+                       f"h_tab := [([{b.layout['v'][2]}], 0%nat)] |}}")
+                terms.append(f"(multis_h {progs} [{ebpf_exec.cbytes(cell)}] [{tab}] {ebpf_exec.cbytes(stack)} {sch})")
+            else:
+                terms.append(f"(multis {progs} {ms} {ebpf_exec.cbytes(stack)} {sch})")
             idx.append(i)
         vals, log = eval_terms(self.pid, self.corr_imports, terms, shard=25)
         for i, v in zip(idx, vals):
@@ -103,6 +115,9 @@ class C06(Check):
     def cell(self, case, maps, stack_unused=None):
         b = case["_b"]
         storage, fmt, addr = b.layout["v"]
+        if storage == "hash":
+            data = bytes(maps[0])
+            return dsl.from_bytes(fmt, data[:dsl.fmt_size(fmt)]), data[dsl.fmt_size(fmt):8] if False else b""
         data = bytes(maps[0])
         n = dsl.fmt_size(fmt)
         return dsl.from_bytes(fmt, data[addr:addr + n]), data[:addr] + data[addr + n:]
@@ -151,12 +166,12 @@ class C06(Check):
         want = wrap(case["fmt"], case["init"] + sum(self.amounts(case)))
         b = case["_b"]
         _, amap = layout_bytes(case, b)
-        _, rest0 = self.cell(case, [amap])
+        _, rest0 = (0, b"") if case.get("mem") == "hash" else self.cell(case, [amap])
         for k, r in enumerate(o):
             if any(st != [1] for st in r["statuses"]):
                 return f"schedule {k}: an instance did not exit normally: {r['statuses']}"
             if r["v"] != want:
-                return (f"schedule {k}: {case['k']} instances of `v {'+=' if case['op'] == 'iadd' else '-='} {case['amount']}` on v:{case['fmt']} = {case['init']} "
+                return (f"schedule {k}: {case['k']} instances of `v {'+=' if case['op'] == 'iadd' else '-='} {case['amount']}` on the {case.get('mem', 'array')} variable v:{case['fmt']} = {case['init']} "
                         f"with r3 = {case['regvals']}, o:{case['ofmt']} = {case['oval']} left v = {r['v']}, the sum of all amounts gives {want}")
             if r["rest"] != rest0.hex():
                 return f"schedule {k}: bytes next to the variable changed"
